@@ -232,6 +232,17 @@ theorem C18_raw_parent_macro (tag : Str) (ooo : Bool) (ks : List Tmpl) (hel : al
   rw [expKidsHtmlAsync_eq, e]
   exact ⟨macro_denotes_top false ks h, macro_denotes_top false ks h⟩
 
+/-! ## the escaping of static text depends on the element that contains it, not on what was printed before -/
+
+/-- **siblings are printed independently** on the static path: what follows a closed sibling (a `<style>`,
+`<script>`, `<textarea>`, `<noscript>` with its own, different escaping included) is printed with the flag of the
+common parent -/
+theorem C18_inert_siblings_independent (esc : Bool) (xs ys : List Tmpl) :
+    inertKidsHtml esc (xs ++ ys) = inertKidsHtml esc xs ++ inertKidsHtml esc ys := by
+  induction xs with
+  | nil => simp [inertKidsHtml]
+  | cons x xs ih => simp [inertKidsHtml, ih]
+
 /-! ## adding a dynamic part leaves the static parts alone -/
 
 /-- the denotation of a context around a hole, as a function of what the hole contributes -/
@@ -811,6 +822,16 @@ example :
       ['<','d','i','v','>','<','p',' ','i','d','=','"','s','"','>',' ',' ','<','b','>',cNbsp,'<','/','b','>','<','/','p','>','<','/','d','i','v','>'] ∧
     macroHtml [.elem sDiv [] [.elem sP [.plain true ['i','d'] ['s']] [.block [' ',' '], .elem ['b'] [] [.block [cNbsp]]]]] =
       ['<','d','i','v','>','<','p',' ','i','d','=','"','s','"','>',' ',' ','<','b','>',cNbsp,'<','/','b','>','<','/','p','>','<','/','d','i','v','>'] := by
+  decide
+
+/-- `C18_inert_siblings_independent` in particular: static text after a closed raw-text sibling is escaped (evaluated: `<style>` with content, then
+text with `<`, `&`; the same bytes as with a dynamic attribute on the parent, i.e. on the builder path) -/
+example :
+    macroHtml [.elem sDiv [] [.elem sP [.plain false ['i','d'] ['s']] [.elem tStyle [] [.text ['p','{','}']], .text ['1','<','2','&']]]] =
+      ['<','d','i','v','>','<','p',' ','i','d','=','"','s','"','>','<','s','t','y','l','e','>','p','{','}','<','/','s','t','y','l','e','>',
+       '1','&','l','t',';','2','&','a','m','p',';','<','/','p','>','<','/','d','i','v','>'] ∧
+    macroHtml [.elem sDiv [] [.elem sP [.plain true ['i','d'] ['s']] [.elem tStyle [] [.text ['p','{','}']], .text ['1','<','2','&']]]] =
+      macroHtml [.elem sDiv [] [.elem sP [.plain false ['i','d'] ['s']] [.elem tStyle [] [.text ['p','{','}']], .text ['1','<','2','&']]]] := by
   decide
 
 /-- a context with a hole (`C18_static_parts_stable`): static content and a dynamic block in the same hole -/
